@@ -43,6 +43,7 @@ structure WorldSt where
   lastSim : Option (Nat × Asset × Nat × String) := none          -- pair, offer, amount, result
   lastRouteSim : Option (Nat × List (Asset × Asset) × String) := none
   pairsSeen : List Nat := []
+  lpFirst : List (Nat × Nat) := []                 -- pair ↦ its LP token as first observed (at creation)
   tokDecimals : List (Nat × Nat) := []
 
 /-- lenient number parsing: absent / malformed observations read as 0 instead of aborting the driver -/
@@ -220,6 +221,17 @@ def isLpToken (st : WorldSt) (t : Nat) : Option Nat :=
     | some v => v.lp = t
     | none => false
 
+def poolReadable (v : String) : Bool := match v.splitOn " " with
+  | [a, b, c] => a.toNat?.isSome && b.toNat?.isSome && c.toNat?.isSome
+  | _ => false
+
+/-- the pair's self-description, provided its `Pool{}` answers before and after the step are readable (a pair whose
+pool query fails is reported as a divergence; the numeric oracles have nothing to judge then) -/
+def pairViewR (st : WorldSt) (p : Nat) : Option PairView :=
+  if poolReadable (curVal st s!"pool {p}") && poolReadable (prevValFirst st s!"pool {p}") then
+    pairViewOf (curVal st s!"pair {p}")
+  else none
+
 def okSwapVals (res : String) : Option (Nat × Nat × Nat × Nat) :=
   match res.splitOn " " with
   | ["ok", "swap", o, n, s, k] => some (o.toNatD, n.toNatD, s.toNatD, k.toNatD)
@@ -262,8 +274,11 @@ def touched (st : WorldSt) (op : Op) : List Nat :=
 
 def fails (p note : String) (b : Bool) : List (String × String) := if b then [] else [(p, note)]
 
-/-- all property predicates evaluated on the implementation's before/after observations of one step -/
-def oracles (st : WorldSt) (pd : Pending) : List (String × String) := Id.run do
+/-- all property predicates evaluated on the implementation's before/after observations of one step.
+`post = true`: the sequence has already diverged from the model (reported once); the oracles that read only the
+implementation's observations keep running so that a concrete failing input is found, minus the standing
+("at all times") ones, which would repeat on every later step, and C01/C03, whose known-finding tag needs the model -/
+def oracles (st : WorldSt) (pd : Pending) (post : Bool := false) : List (String × String) := Id.run do
   let mut out : List (String × String) := []
   let changedBal := (st.changes.filter fun c => c.2.1 ≠ "").filterMap fun (k, o, n) =>
     match k.splitOn " " with
@@ -275,8 +290,58 @@ def oracles (st : WorldSt) (pd : Pending) : List (String × String) := Id.run do
   if !pd.implOk then
     if !(st.changes.filter fun c => c.2.1 ≠ "").isEmpty then
       out := out ++ [(atomicityProp pd.kind, s!"a rejected call changed {(st.changes.head?.map (·.1)).getD ""}")]
+  -- C10 / C15, completeness: a call rejected *by the guard* lies outside the bound the property allows.
+  -- The would-be amounts of a rejected swap are those of the pair's own quote taken immediately before,
+  -- used only when they satisfy the C06 bracket on the observed reserves.
+  if pd.implRes == "fail:guard" then
+    match pd.op with
+    | .pair _ p funds (.provide as0 am0 as1 am1 tolO _) =>
+      match pairViewR st p, tolO with
+      | some v, some t =>
+        let d0 := if as0 = v.a0 then am0 else am1
+        let d1 := if as0 = v.a1 then am0 else am1
+        let (r0, r1, _) := poolOf (curVal st s!"pool {p}")
+        let _ := funds
+        if (as0 = v.a0 && as1 = v.a1 || as0 = v.a1 && as1 = v.a0) && r0 > 0 && r1 > 0 && d0 > 0 && d1 > 0 then
+          out := out ++ fails "C15" s!"provision rejected by the slippage guard inside the tolerance: d=({d0},{d1}) r=({r0},{r1}) t={t}"
+            (decide (t ≤ E) && Spec.c15Complete t d0 d1 r0 r1)
+      | some _, none => out := out ++ [("C15", "slippage-guard rejection without a tolerance")]
+      | _, _ => pure ()
+    | _ =>
+      let sw : Option (Nat × Asset × Nat × Option Nat × Option Nat × List (Nat × Nat)) := match pd.op with
+        | .pair _ p funds (.swap offer amt b m _) => some (p, offer, amt, b, m, funds)
+        | .tokSend _ _ d amt (.swap offer _ b m _) => if st.pairsSeen.contains d then some (d, offer, amt, b, m, []) else none
+        | _ => none
+      match sw with
+      | some (p, offer, amt, belief, msO, funds) =>
+        match pairViewR st p, st.lastSim with
+        | some v, some (qp, qo, qa, qres) =>
+          if qp = p && qo = offer && qa = amt && (funds.filter (fun c => Asset.native c.1 ≠ offer)).isEmpty then
+            match qres.splitOn " " with
+            | ["ok", nS, sS, kS] =>
+              let (n, sp, k) := (nS.toNatD, sS.toNatD, kS.toNatD)
+              let (r0, r1, _) := poolOf (curVal st s!"pool {p}")
+              let x := if offer = v.a0 then r0 else r1
+              let y := if offer = v.a0 then r1 else r0
+              let od := if offer = v.a0 then v.d0 else v.d1
+              let rd := if offer = v.a0 then v.d1 else v.d0
+              if (offer = v.a0 || offer = v.a1) && v.comm ≤ E && Spec.c06 x y amt v.comm n sp k then
+                match normSpread amt n sp od rd, msO, belief with
+                | .ok (o', r', _), some m, some bp =>
+                  if bp > 0 then
+                    out := out ++ fails "C10" s!"swap rejected by the spread guard inside the belief-price bound (quote {n}, decimals {od}/{rd})"
+                      (Spec.c10BeliefComplete o' r' bp m)
+                | .ok (_, r', s'), some m, none =>
+                  if r' + s' > 0 then
+                    out := out ++ fails "C10" s!"swap rejected by the spread guard inside max_spread (quote {n} {sp}, decimals {od}/{rd})"
+                      (Spec.c10SpreadComplete r' s' m)
+                | .ok _, none, _ => out := out ++ [("C10", "spread-guard rejection without max_spread")]
+                | _, _, _ => pure ()
+            | _ => pure ()
+        | _, _ => pure ()
+      | none => pure ()
   -- C03: reserve0*reserve1/S^2 never decreases while the supply is positive (every pair, every step)
-  for p in st.pairsSeen do
+  for p in (if post then [] else st.pairsSeen) do
     let (r0, r1, S) := poolOf (prevValFirst st s!"pool {p}")
     let (r0', r1', S') := poolOf (curVal st s!"pool {p}")
     if S > 0 then
@@ -288,6 +353,22 @@ def oracles (st : WorldSt) (pd : Pending) : List (String × String) := Id.run do
     for (a, who, _) in changedBal do
       if !tch.contains who then
         out := out ++ [("C07", s!"balance of bystander {who} in {showAsset a} changed")]
+    -- C07: the designated receiver's balances can only increase
+    let rcvs : List Nat := match pd.op with
+      | .pair _ _ _ (.provide _ _ _ _ _ r) => r.toList
+      | .pair _ _ _ (.swap _ _ _ _ t) => t.toList
+      | .pair _ _ _ (.receive _ _ h) => h.receivers
+      | .tokSend _ _ _ _ h => h.receivers
+      | .router _ _ (.swapOps _ _ t) => t.toList
+      | .router _ _ (.swapOp _ _ t) => t.toList
+      | .router _ _ (.receive _ _ h) => h.receivers
+      | _ => []
+    let actor := actorOf pd.op
+    for (a, who, d) in changedBal do
+      if rcvs.contains who && who ≠ actor && !st.pairsSeen.contains who && who ≠ st.w.router && who ≠ st.w.facAddr
+         && (match pd.op with | .pair _ _ _ (.receive f _ _) => who ≠ f | .router _ _ (.receive f _ _) => who ≠ f | _ => true)
+         && d < 0 then
+        out := out ++ [("C07", s!"balance of the designated receiver {who} in {showAsset a} fell by {-d}")]
     let assets := (changedBal.map (·.1)).eraseDups
     for a in assets do
       let sum := (changedBal.filter (fun c => c.1 = a)).foldl (fun s c => s + c.2.2) (0 : Int)
@@ -314,7 +395,7 @@ def oracles (st : WorldSt) (pd : Pending) : List (String × String) := Id.run do
       | _ => none
     match swapInfo, okSwapVals pd.implRes with
     | some (p, trader, offer, amt, to, funds, viaTok), some (o, n, s, k) =>
-      match pairViewOf (curVal st s!"pair {p}") with
+      match pairViewR st p with
       | some v =>
         let ask := if offer = v.a0 then v.a1 else v.a0
         let rcv := to.getD trader
@@ -346,13 +427,28 @@ def oracles (st : WorldSt) (pd : Pending) : List (String × String) := Id.run do
           let (r0', r1', _) := poolOf (curVal st s!"pool {p}")
           let askAfter := if ask = v.a1 then r1' else r0'
           let askBefore := if ask = v.a1 then r1 else r0
-          if !(decide (r0 * r1 ≤ r0' * r1') && (decide (0 < askAfter) || askBefore = 0)) then
+          if !post && !(decide (r0 * r1 ≤ r0' * r1') && (decide (0 < askAfter) || askBefore = 0)) then
             out := out ++ [("C01", s!"{kw}reserve product fell or ask reserve emptied: ({r0},{r1}) -> ({r0'},{r1'})")]
           -- C06 on reported amounts
           let x := if offer = v.a0 then r0 else r1
           let y := (if offer = v.a0 then r1 else r0) + fundsOf funds ask
           if v.comm ≤ E then
             out := out ++ fails "C06" "reported swap amounts violate the price bracket" (Spec.c06 x y amt v.comm n s k)
+          -- C10: an accepted swap honours max_spread / belief_price (reported amounts, the pair's own decimals)
+          let (belief, msO) : Option Nat × Option Nat := match pd.op with
+            | .pair _ _ _ (.swap _ _ b m _) => (b, m)
+            | .tokSend _ _ _ _ (.swap _ _ b m _) => (b, m)
+            | _ => (none, none)
+          let od := if offer = v.a0 then v.d0 else v.d1
+          let rd := if offer = v.a0 then v.d1 else v.d0
+          match normSpread amt n s od rd, msO, belief with
+           | .ok (o', r', _), some m, some bp =>
+             if bp > 0 then
+               out := out ++ fails "C10" s!"swap accepted outside the belief-price bound (decimals {od}/{rd})" (Spec.c10BeliefSound o' r' bp m)
+           | .ok (_, r', s'), some m, none =>
+             if r' + s' > 0 then
+               out := out ++ fails "C10" s!"swap accepted outside max_spread (decimals {od}/{rd})" (Spec.c10SpreadSound r' s' m)
+           | _, _, _ => pure ()
           -- C12: the quote taken immediately before equals the execution
           match st.lastSim with
            | some (qp, qo, qa, qres) =>
@@ -364,7 +460,7 @@ def oracles (st : WorldSt) (pd : Pending) : List (String × String) := Id.run do
     -- provide
     match pd.op with
     | .pair s p funds (.provide as0 am0 as1 am1 _ rcvO) =>
-      match pairViewOf (curVal st s!"pair {p}"), pd.implRes.splitOn " " with
+      match pairViewR st p, pd.implRes.splitOn " " with
       | some v, ["ok", "share", mStr] =>
         let m := mStr.toNatD
         let d0 := if as0 = v.a0 then am0 else am1
@@ -381,6 +477,12 @@ def oracles (st : WorldSt) (pd : Pending) : List (String × String) := Id.run do
           out := out ++ fails "C05" "caller did not pay exactly the declared deposits"
             (delta st v.a0 s = -(d0 : Int) + (if rcv = s && v.a0 = .token v.lp then (m : Int) else 0) &&
              delta st v.a1 s = -(d1 : Int) + (if rcv = s && v.a1 = .token v.lp then (m : Int) else 0))
+        match pd.op with
+         | .pair _ _ _ (.provide _ _ _ _ (some t) _) =>
+           if r0 > 0 && r1 > 0 && d0 > 0 && d1 > 0 then
+             out := out ++ fails "C15" s!"provision accepted outside the slippage tolerance: d=({d0},{d1}) r=({r0},{r1}) t={t}"
+               (Spec.c15Sound t d0 d1 r0 r1)
+         | _ => pure ()
         let (_, _, S') := poolOf (curVal st s!"pool {p}")
         if S > 0 then
           out := out ++ fails "C05" "minted share outside the fair bracket" (Spec.c05Pos S d0 d1 r0 r1 m && decide (1 ≤ m))
@@ -399,7 +501,7 @@ def oracles (st : WorldSt) (pd : Pending) : List (String × String) := Id.run do
       | _ => none
     match wd, pd.implRes.splitOn " " with
     | some (t, holder, p, a), ["ok", "refund", x0s, x1s] =>
-      match pairViewOf (curVal st s!"pair {p}") with
+      match pairViewR st p with
       | some v =>
         let (x0, x1) := (x0s.toNatD, x1s.toNatD)
         let (r0, r1, S) := poolOf (prevValFirst st s!"pool {p}")
@@ -500,16 +602,18 @@ def oracles (st : WorldSt) (pd : Pending) : List (String × String) := Id.run do
     -- C20: a withdrawal whose entitlement is at least r/1e18 + 2 of each asset must succeed
     match pd.op with
     | .tokSend t holder p a .withdraw =>
-      match pairViewOf (curVal st s!"pair {p}") with
-      | some v =>
-        let (r0, r1, S) := poolOf (curVal st s!"pool {p}")
+      -- the pair's LP token as observed when the pair was created; reserves = the pair's actual balances
+      match pairViewOf (curVal st s!"pair {p}"), st.lpFirst.lookup p with
+      | some v, some lp =>
+        let (r0, r1, S) := (balC st v.a0 p, balC st v.a1 p, (curVal st s!"supply {lp}").toNatD)
         let hb := balC st (.token t) holder
-        if t = v.lp && 1 ≤ a && a ≤ hb && decide ((r0 + 2 * E) * S ≤ r0 * a * E) && decide ((r1 + 2 * E) * S ≤ r1 * a * E)
-           && v.a0 ≠ .token v.lp && v.a1 ≠ .token v.lp then
+        if t = lp && holder ≠ p && 1 ≤ a && a ≤ hb && decide ((r0 + 2 * E) * S ≤ r0 * a * E) && decide ((r1 + 2 * E) * S ≤ r1 * a * E)
+           && v.a0 ≠ .token lp && v.a1 ≠ .token lp then
           out := out ++ [("C20", s!"entitled withdrawal of {a} LP from pair {p} was rejected")]
-      | none => pure ()
+      | _, _ => pure ()
     | _ => pure ()
   -- C16 / C17: factory record = pair self-description, in both orders, at all times; C19: listing complete
+  if post then return out
   for p in st.pairsSeen do
     let pv := curVal st s!"pair {p}"
     match pairViewOf pv with
@@ -532,7 +636,11 @@ def finalize (st : WorldSt) : WorldSt × List String × Option Verdict :=
   match st.pending with
   | none => (st, [], none)
   | some pd =>
-    if st.desync then ({ st with pending := none, changes := [] }, [], none)
+    if st.desync then
+      let orc := oracles st pd true
+      let outs := orc.map fun (p, note) => s!"ORACLE-FAIL {p} {note} :: {pd.line}"
+      let v : Verdict := { diverge := none, oracle := orc, nontrivial := pd.implOk, tags := ["post-divergence"] }
+      ({ st with pending := none, changes := [] }, outs, if orc.isEmpty then none else some v)
     else
       let bad := st.keys.toList.filterMap fun k =>
         let mv := modelObs st.w k
@@ -623,9 +731,16 @@ def worldLine (st : WorldSt) (line : String) : WorldSt × List String × String 
        let pairsSeen := match key.splitOn " " with
          | ["pair", p] => if st.pairsSeen.contains p.toNatD then st.pairsSeen else st.pairsSeen ++ [p.toNatD]
          | _ => st.pairsSeen
+       let lpFirst := match key.splitOn " " with
+         | ["pair", p] =>
+           if (st.lpFirst.lookup p.toNatD).isSome then st.lpFirst
+           else match pairViewOf val with
+             | some v => st.lpFirst ++ [(p.toNatD, v.lp)]
+             | none => st.lpFirst
+         | _ => st.lpFirst
        ({ st with cur := cur, keys := if isNew then st.keys.push key else st.keys,
                   changes := if st.pending.isSome then (key, old, val) :: st.changes else st.changes,
-                  pairsSeen := pairsSeen }, [], fam, none)
+                  pairsSeen := pairsSeen, lpFirst := lpFirst }, [], fam, none)
      | _ => (st, [s!"DIVERGE {fam} model=parse :: {line}"], fam, none))
   | "query" :: _ :: q =>
     let (st0, outs0, v0) := finalize st
@@ -705,7 +820,22 @@ def worldLine (st : WorldSt) (line : String) : WorldSt × List String × String 
        | _ => (st0, outs0 ++ [s!"DIVERGE {fam} model=parse :: {line}"], fam, v0))
   | "step" :: _ :: _ :: opToks =>
     let (st0, outs0, v0) := finalize st
-    if st0.desync then (st0, outs0, fam, v0)
+    if st0.desync then
+      -- model and implementation no longer share a state: the model is not run any more, but the step is kept
+      -- pending so that the implementation-only oracles (`oracles … (post := true)`) still see it
+      (match line.splitOn " => " with
+       | [lhs, impl] =>
+         let opT := ((lhs.splitOn " ").filter (· ≠ "")).drop 3
+         match parseOp opT with
+         | none => (st0, outs0, fam, v0)
+         | some op0 =>
+           let op := match op0, impl.splitOn " " with
+             | .factory s f (.createPair a0 a1 req c _ _), ["ok", "created", np, nl] => Op.factory s f (.createPair a0 a1 req c np.toNatD nl.toNatD)
+             | o, _ => o
+           let pd : Pending := { line := line, op := op, kind := opT.headD "?", implOk := impl.startsWith "ok", implRes := impl,
+                                 wBefore := st0.w, modelOk := true }
+           ({ st0 with pending := some pd, changes := [] }, outs0, fam, v0)
+       | _ => (st0, outs0, fam, v0))
     else
       (match line.splitOn " => " with
        | [lhs, impl] =>
